@@ -26,7 +26,9 @@ VARIABLES meta,     \* acknowledged metadata (sequence of bytes)
           since     \* acknowledged states [t, meta] of the live instance since its last successful flush (or creation)
 svars == <<l, t, d, used, meta, phase, pend, pinit, lastl, retried, since>>
 
-NoPend == [pre |-> Empty, post |-> Empty, premeta |-> <<>>, postmeta |-> <<>>, ts |-> {Empty}, metas |-> {<<>>}]
+NoPend == [pre |-> Empty, post |-> Empty, premeta |-> <<>>, postmeta |-> <<>>, ts |-> {Empty}, metas |-> {<<>>}, preroot |-> -1]
+\* the root the instance reported on the line before line k (-1 if that line carries no usable observation)
+RootBefore(k) == IF k > 1 /\ "obs" \in DOMAIN Rec[k - 1] /\ ~Broken(Rec[k - 1].obs) THEN Rec[k - 1].obs.root ELSE -1
 NoInit == [on |-> FALSE, t |-> Empty, meta |-> <<>>]
 
 SInit == l = 1 /\ t = Empty /\ d = 0 /\ used = {} /\ meta = <<>> /\ phase = "none" /\ pend = NoPend /\ pinit = NoInit /\ lastl = 0 /\ retried = FALSE /\ since = {}
@@ -104,7 +106,8 @@ SAdvance(e) ==
                THEN /\ phase' = "failed"
                     /\ pend' = [pre |-> t, post |-> After(t, Expected(e), "ok"),
                                 premeta |-> meta, postmeta |-> MetaAfter(e.op, meta),
-                                ts |-> {t, After(t, Expected(e), "ok")}, metas |-> {meta, MetaAfter(e.op, meta)}]
+                                ts |-> {t, After(t, Expected(e), "ok")}, metas |-> {meta, MetaAfter(e.op, meta)},
+                                preroot |-> RootBefore(l)]
                     /\ UNCHANGED <<t, meta, pinit>>
                ELSE /\ UNCHANGED <<phase, pend>>
                     /\ pinit' = (IF phase = "live" /\ e.op.c = "init" /\ e.res = "ok" /\ ~pinit.on
@@ -119,7 +122,7 @@ SAdvance(e) ==
             /\ pend' = [pre |-> t, post |-> After(t, SpecStep(d, t, e.inflight), "ok"),
                         premeta |-> meta, postmeta |-> MetaAfter(e.inflight, meta),
                         ts |-> {x.t : x \in since} \cup {t, After(t, SpecStep(d, t, e.inflight), "ok")},
-                        metas |-> {x.meta : x \in since} \cup {meta, MetaAfter(e.inflight, meta)}]
+                        metas |-> {x.meta : x \in since} \cup {meta, MetaAfter(e.inflight, meta)}, preroot |-> -1]
             /\ lastl' = 0 /\ retried' = FALSE
             /\ UNCHANGED <<t, d, meta, pinit>>
        [] e.t = "drop" ->
@@ -155,6 +158,19 @@ SKFPred(name, e) ==
                 b == Rec[lastl].obs
             IN /\ o.next = pend.pre.next /\ b.next = pend.post.next /\ pend.pre.next < pend.post.next
                /\ o.root = b.root /\ ObsMeta(o) = ObsMeta(b)
+               /\ (IF Sparse(o) THEN o.nz = b.nz ELSE o.leaves = b.leaves)
+               /\ (~retried => DurOK(o, e.d))
+    [] name = "pm-batch-root-memory-behind" ->
+         \* the same non-transactional update of the in-memory fields in pmtree's batch write: the batch is written,
+         \* the in-memory leaf count is raised, the write of the count fails, the in-memory ROOT is not updated any more:
+         \* the live instance reports the new count with the OLD root, the flush succeeds, the reopened tree has the old
+         \* count with the NEW root (the leaves agree)
+         /\ Prop = "C16" /\ e.t = "open" /\ e.existed /\ phase = "failedclosed" /\ e.res = "ok" /\ lastl > 0
+         /\ ~Broken(e.obs) /\ ~Broken(Rec[lastl].obs)
+         /\ LET o == e.obs
+                b == Rec[lastl].obs
+            IN /\ o.next = pend.pre.next /\ b.next = pend.post.next /\ pend.pre.next < pend.post.next
+               /\ b.root = pend.preroot /\ o.root # b.root /\ ObsMeta(o) = ObsMeta(b)
                /\ (IF Sparse(o) THEN o.nz = b.nz ELSE o.leaves = b.leaves)
                /\ (~retried => DurOK(o, e.d))
     [] name = "pm-override-batch" -> e.t = "op" /\ phase = "live" /\ ~e.fired /\ PmOverrideMatches(e)
